@@ -2,17 +2,17 @@
 from props_common import COMMON_NOTE
 
 CONF = dict(
-    families=[('adrform', 45, 600), ('adrdec', 260, 4000), ('adrenc', 150, 2000), ('adrpay', 60, 800), ('adrscr', 40, 500)],
+    families=[('adrform', 45, 600), ('b32cb', 100, 1500), ('adrdec', 260, 4000), ('adrenc', 150, 2000), ('adrpay', 60, 800), ('adrscr', 40, 500)],
     compare=None,
     trusted=['modelled by hand: address/address.go (all exported functions), the address methods of payment/payment.go and payment/p2tr.go, txscript push encoding for data up to 75 bytes; '
              'network parameters and the address-type enumeration are regenerated from network/network.go and address/address.go on every run (Gen/NetConsts.v, Gen/AddressConsts.v); '
              'blech32 is the model of C15; the external codecs are executable re-implementations (Model/AddrCodecs.v: btcutil base58check, bech32) used only to run the model in the differential check, and compared with the real libraries there'],
     assumptions=['ext_laws (btcutil, outside the repository): base58 CheckDecode(CheckEncode(d,v)) = (d,v) and CheckEncode(CheckDecode s) = s; base58check strings of the nine version bytes with 20/54-byte payloads never begin with a segwit prefix; '
-                 'bech32 Encode/EncodeM produce lower(hrp) ++ "1" ++ alphabet characters, are total on 5-bit data, and DecodeGeneric returns hrp, data and the constant used; bech32.ConvertBits 8->5 (padded) then 5->8 is the identity',
-                 'regroup_law: the same regrouping round-trip for the repository\'s own blech32.ConvertBits is a premise of the blech32 theorems (not yet proved over the faithful bit-twiddling model; compared with the implementation on thousands of inputs by C15\'s and C14\'s K)'],
+                 'bech32 Encode/EncodeM produce lower(hrp) ++ "1" ++ alphabet characters, are total on 5-bit data, DecodeGeneric returns hrp, data and the constant used, and Encode of what DecodeGeneric returned is the lower-case spelling; bech32.ConvertBits 8->5 (padded) then 5->8 is the identity and 5->8 accepts only images of 8->5',
+                 'regroup_law / regroup_back_law: the same two regrouping laws for the repository\'s own blech32.ConvertBits are premises of the blech32 theorems (not yet proved over the faithful bit-twiddling model; compared with the implementation on thousands of inputs by C15\'s and C14\'s K)'],
     explanation='theorems (for all three networks, all payloads, all 33-byte keys): base58 / confidential base58 decode(encode) and encode(decode) with the prefix|key|hash layout; bech32 and blech32 forms encode, decode back to the same prefix/version/key/program, are attributed to exactly their network, get the right type and confidentiality flag, and ToOutputScript equals the payment builder script; '
                 'ToConfidential/FromConfidential preserve address, key and script; version bytes and prefixes of the networks are pairwise disjoint (vm_compute over regenerated constants); payment address methods are these encoders. '
-                'REFUTED (kept visible, with witnesses): the re-encode clause for segwit strings carrying the other checksum constant (FromBech32 ignores which constant matched) and for upper-case blech32 strings. '
+                'after fix e7c9f3c the former refutations are positive theorems: the other checksum constant is rejected, and every string FromBech32 (version 0/1) or FromBlech32 accepts, in either case, re-encodes to its lower-case spelling (blech32 side via C15 decode_encode: the twelve checksum symbols are determined by the rest). '
                 'K: every exported function of package address and the payment address methods against the model on valid, mutated and malformed strings. '
                 'S: 5 script types x confidential or not x 3 networks on random payloads through the real API (all clauses), every recognised string re-encoded, case and checksum-constant clauses as separate cases.',
 )
@@ -21,7 +21,7 @@ TEXT = dict(
     text='Machine-checked proof (Coq) over an executable model of address.go and the payment address methods: for every network, script type, payload and 33-byte blinding key the address encodes, decodes back to the same payload/type/network/key, '
          'ToOutputScript equals the payment builder script, confidential<->unconfidential conversion preserves address, key and script, and network attribution is exclusive (prefix/version disjointness proved over regenerated constants). '
          'btcutil base58check/bech32 are abstract codecs whose round-trip laws are hypotheses; blech32 is the fully modelled C15 codec (its ConvertBits regrouping round-trip enters as a stated premise). '
-         'Two clauses are refuted and recorded as known findings: FromBech32 accepts either bech32 constant for any version, and upper-case blech32 addresses do not re-encode.',
+         'Recognised segwit strings re-encode to themselves up to case and the checksum constant is bound to the witness version (both were defects found by this check and repaired by commit e7c9f3c; the model follows the fixed code).',
     note=COMMON_NOTE + 'Hypotheses: laws of btcutil base58check/bech32/ConvertBits (ext_laws) and the regrouping round-trip of blech32.ConvertBits (regroup_law); each is exercised on the real code by the differential check.',
     technique='Coq proof over a layout model with abstract external codecs + model/implementation differential check on every exported address function + full-form oracle on the implementation',
 )
